@@ -126,7 +126,7 @@ def run_plan(plan):
             return None
         src = history.get(at_cmd, shadow)
         if bank.has_latch and bank.number != 0 and a != 2:
-            if latch_image[0] is not None and kind == "all-latch":
+            if latch_image[0] is not None and kind == "all-latch" and plan["last"] >= 2:
                 src = latch_image[0]
             elif pre_latched and latch_image[0] is None:
                 src = bank.snapshot
@@ -224,6 +224,9 @@ def run_plan(plan):
                         break
             if use_latch and mutated[0]:
                 probes["mutation-hidden-by-latch"] = 1
+            if use_latch and plan["last"] >= 2 and latch_image[0] is None:
+                V("bank-not-latched-for-read-all", "read_all(use_latch=True) on latching bank %s never wrote 0xAA to the "
+                  "lock byte: the values are not a snapshot" % key, site=kind)
     # ---- afterwards: memory untouched, not left latched -----------------
     changed = [a for a in range(256) if a != 2 and bank.cells[a] != shadow[a]]
     if changed:
